@@ -34,6 +34,22 @@ type PathSpec struct {
 type HostSpec struct {
 	Paths []PathSpec `json:"paths"`
 	TLS   bool       `json:"tls,omitempty"`
+	// server-alias / server-alias-regex: other names the host answers to. They are keys of the
+	// frontend maps and of the idpath maps of the backends of the host, and part of no backend.
+	Alias   string `json:"alias,omitempty"`
+	AliasRe string `json:"alias_re,omitempty"`
+}
+
+// AliasKeys lists the alias keys of a host, the name first.
+func (h HostSpec) AliasKeys() []string {
+	var out []string
+	if h.Alias != "" {
+		out = append(out, h.Alias)
+	}
+	if h.AliasRe != "" {
+		out = append(out, h.AliasRe)
+	}
+	return out
 }
 
 // BackendSpec is the desired own content of a backend (its paths come from
@@ -219,6 +235,9 @@ func (s State) HostContent(h string) string {
 	for _, p := range hs.Paths {
 		ps = append(ps, p.Path+">"+p.Backend)
 	}
+	if hs.Alias != "" || hs.AliasRe != "" {
+		return fmt.Sprintf("%s tls=%v paths=%v alias=%s/%s", h, hs.TLS, ps, hs.Alias, hs.AliasRe)
+	}
 	return fmt.Sprintf("%s tls=%v paths=%v", h, hs.TLS, ps)
 }
 
@@ -287,6 +306,7 @@ type Op struct {
 	RSSL   []string    // bacq: hosts whose root path, served by the backend, has ssl-redirect
 	TLS    bool        // hacq / tacq
 	HPaths [][2]string // hacq: (path, backend)
+	HAlias []string    // hacq: alias keys (server-alias name, server-alias-regex)
 	TBack  string      // tacq: backend
 }
 
@@ -424,7 +444,7 @@ func Plan(prev State, st Step, in *Interner) []Op {
 		for _, p := range cur.Hosts[h].Paths {
 			hp = append(hp, [2]string{p.Path, p.Backend})
 		}
-		ops = append(ops, Op{Kind: "hacq", Name: h, Ver: in.ID("H " + cur.HostContent(h)), TLS: cur.Hosts[h].TLS, HPaths: hp})
+		ops = append(ops, Op{Kind: "hacq", Name: h, Ver: in.ID("H " + cur.HostContent(h)), TLS: cur.Hosts[h].TLS, HPaths: hp, HAlias: cur.Hosts[h].AliasKeys()})
 	}
 	for _, t := range sortedKeys(tcpToAdd) {
 		ops = append(ops, Op{Kind: "tacq", Name: t, Ver: in.ID("T " + cur.TCPContent(t)), TLS: cur.TCP[t].TLS, TBack: cur.TCP[t].Backend})
@@ -618,6 +638,8 @@ func (e *Env) Apply(cur State, ops []Op) {
 			hs := cur.Hosts[op.Name]
 			h := cfg.Hosts().AcquireHost(op.Name)
 			h.RootRedirect = fmt.Sprintf("/r%d", op.Ver)
+			h.Alias.AliasName = hs.Alias
+			h.Alias.AliasRegex = hs.AliasRe
 			if hs.TLS {
 				h.TLS.TLSFilename = "/ssl/" + op.Name + ".pem"
 				h.TLS.TLSHash = "1"
@@ -715,11 +737,12 @@ type Disk struct {
 	RootSSL    []string            // hosts listed in _front_redir_root_ssl*.map
 	HTTPHost   []string            // "host#path backend" lines of _front_http_host*.map, sorted
 	CrtList    []string            // lines of _front_bind_crt.list, sorted
-	BackMaps   map[string][]string // backend name -> sorted keys of its referenced idpath maps
+	BackMaps   map[string][]string // backend name -> sorted "key pathID" lines of its referenced idpath maps
 	BackMapRef map[string]bool     // backend name -> its section references an idpath map
 	TCPMaps    map[string][]string // port -> sorted "host backend" lines of referenced _tcp_sni maps
 	TCPPorts   []string            // ports with a frontend in the main file
 	TCPCrt     map[string][]string // port -> lines of the referenced crt-list
+	MapFiles   map[string][]string // every referenced map / list file -> its lines, sorted
 	Missing    []string            // referenced files that do not exist
 	MainRest   string              // main file without backend sections (text, for the fresh comparison)
 }
@@ -759,7 +782,7 @@ func readLines(path string) ([]string, bool) {
 
 // ReadDisk projects the files under the env's directories.
 func (e *Env) ReadDisk() Disk {
-	d := Disk{RootRedir: map[string]int{}, BackMaps: map[string][]string{}, BackMapRef: map[string]bool{}, TCPMaps: map[string][]string{}, TCPCrt: map[string][]string{}}
+	d := Disk{MapFiles: map[string][]string{}, RootRedir: map[string]int{}, BackMaps: map[string][]string{}, BackMapRef: map[string]bool{}, TCPMaps: map[string][]string{}, TCPCrt: map[string][]string{}}
 	names, _ := filepath.Glob(filepath.Join(e.CfgDir, "*.cfg"))
 	sort.Strings(names)
 	refs := map[string]bool{}
@@ -862,6 +885,12 @@ func (e *Env) ReadDisk() Disk {
 			d.Missing = append(d.Missing, ref)
 			continue
 		}
+		all := make([]string, len(lines))
+		for i, l := range lines {
+			all[i] = strings.ReplaceAll(strings.ReplaceAll(l, e.MapsDir+"/", "MAPS/"), e.CfgDir+"/", "CFG/")
+		}
+		sort.Strings(all)
+		d.MapFiles[ref] = all
 		switch {
 		case strings.HasPrefix(base, "_front_redir_fromroot"):
 			for _, l := range lines {
@@ -883,9 +912,7 @@ func (e *Env) ReadDisk() Disk {
 		case strings.HasPrefix(base, "_back_") && strings.Contains(base, "_idpath"):
 			name := strings.TrimPrefix(base, "_back_ns_")
 			name = name[:strings.Index(name, "_8080")]
-			for _, l := range lines {
-				d.BackMaps[name] = append(d.BackMaps[name], strings.Fields(l)[0])
-			}
+			d.BackMaps[name] = append(d.BackMaps[name], lines...)
 		case strings.HasPrefix(base, "_tcp_sni_"):
 			var port int
 			fmt.Sscanf(strings.TrimPrefix(base, "_tcp_sni_"), "%d", &port)
@@ -989,6 +1016,9 @@ func (d Disk) Canon() string {
 	}
 	for _, k := range sortedKeys(d.TCPCrt) {
 		fmt.Fprintf(&sb, "tcpcrt %s=%v\n", k, d.TCPCrt[k])
+	}
+	for _, k := range sortedKeys(d.MapFiles) {
+		fmt.Fprintf(&sb, "file %s=%v\n", k, d.MapFiles[k])
 	}
 	fmt.Fprintf(&sb, "missing=%v\n", d.Missing)
 	return sb.String()
